@@ -126,6 +126,10 @@ class RawPayloadDecoder(AbstractSimplePayloadDecoder):
             if value is eoo.endOfOctets:
                 break
 
+        if component is noValue:
+            raise error.PyAsn1Error(
+                'No value inside explicit tag %s' % (tagSet,))
+
         # the value comes last, once the closing end-of-octets has been read
         yield component
 
